@@ -837,7 +837,9 @@ def broadcast_and_apply(  # noqa: C901
                 if isinstance(x, optiontypes):
                     m = nplike.asarray(x.bytemask()).view(np.bool_)
                     if mask is None:
-                        mask = m
+                        # a copy: ByteMaskedArray.bytemask() with
+                        # valid_when=False IS the array's own mask buffer
+                        mask = nplike.array(m, copy=True)
                     else:
                         nplike.bitwise_or(mask, m, out=mask)
 
